@@ -2,12 +2,12 @@
    Statements only; proofs in Proofs/Paging.v, Proofs/Restart.v, Proofs/ChainInv.v, Proofs/ChainRun.v,
    Proofs/ChainExamples.v; the incoming / outgoing histories and the transaction heights in Proofs/History1.v (numbered
    histories; the ledger operations as steps on them), History2.v (ledgers: extension and reorganisation), History3.v
-   (every delivery sequence), HistoryExamples.v (concrete histories). *)
+   (every delivery sequence), History4.v (the event lists = those of Check/C17.v), HistoryExamples.v (concrete histories). *)
 From Virel Require Import Lib.Config Lib.U64 Lib.AMap Model.Emission Model.Ledger Model.Node Model.Paging Spec.Chain
   Proofs.Emission Proofs.Conservation Proofs.Pointwise Proofs.Refine2
   Proofs.NodeBasics Proofs.ForkChoice Proofs.Paging Proofs.Restart Proofs.ChainInv Proofs.ChainRun Proofs.ChainHeights
   Proofs.ChainExamples Proofs.Undo2 Proofs.Undo4 Proofs.Replay2 Proofs.Replay3 Proofs.Replay4 Proofs.Replay5 Proofs.Replay6
-  Proofs.History1 Proofs.History2 Proofs.History3 Proofs.HistoryExamples Gen.Params.
+  Proofs.History1 Proofs.History2 Proofs.History3 Proofs.History4 Proofs.HistoryExamples Check.Hist Check.C01 Check.C17 Gen.Params.
 Open Scope N_scope.
 
 (* "every history page": for every history length n below 2^63 the pages served by get_tx_list partition the ids 1..n:
@@ -172,6 +172,26 @@ Theorem C17_histories_as_served : forall cfg genesis_addr team_key g n0 ops,
       map Some (evs_for a (main_signs g n)).
 Proof. exact histories_as_served. Qed.
 Print Assumptions C17_histories_as_served.
+
+(* the event lists of these theorems are the lists Check/C17.v replays from the chain of a dump (block_credits,
+   block_signs of Check/C17.v over genesis :: main chain, totals as plain numbers): every block of the main chain was
+   accepted by ApplyBlockToState, whose checks 391 / 393 say that the fee total and reward + fees did not wrap.
+   [h] is any history record of the harness with the same genesis address (it only supplies that address). *)
+Theorem C17_main_events_as_checked : forall cfg, cfg_ok_emission cfg = true ->
+  forall genesis_addr team_key g n0 ops h,
+  cfg_ok_feepos cfg = true ->
+  node0 cfg genesis_addr g = Ok n0 -> b_height g = 0 -> b_cd g = b_diff g ->
+  N.of_nat (length ops) < two64 - 1 ->
+  let n := run cfg genesis_addr team_key n0 ops in
+  Forall (tx_c cfg) (b_txs g) ->
+  (forall h b, get_block n h = Some b -> Forall (fun t => wf_tx cfg t /\ ver_ok t = true) (b_txs b)) ->
+  (forall bs, up (b_hash g) (blocks n) (b_hash g) bs ->
+     NoDup (bkeys g ++ flat_map bkeys bs) /\ c0 g + bnouts bs < two64 /\ c0 g + bntx bs < two64) ->
+  h_genesis_addr h = genesis_addr ->
+  main_credits cfg genesis_addr g n = flat_map (Check.C17.block_credits cfg h) (g :: mchain n) /\
+  main_signs g n = flat_map Check.C17.block_signs (g :: mchain n).
+Proof. exact main_events_as_checked. Qed.
+Print Assumptions C17_main_events_as_checked.
 
 (* the same three facts with the per-transaction conditions as one premise on the store (store_pre of Proofs/Replay4.v:
    no use of stateless validation); tinv / hinv of Proofs/History1.v are the two shapes spelled out above *)
